@@ -4,7 +4,7 @@
    abstract state [s]; [run] folds it over a history, [trace] collects the observations.  [veq] is
    equality of everything the property talks about (parameters, BatchNorm statistics, training flags of
    wrapper / seed / layers / the separately handled sub-set S of modules (frozen BatchNorm, Dropout, samplers;
-   [OFlip] flips them), sampled coefficients, position of the random stream, cost specification);
+   [OFlip] flips them), sampled coefficients, sampling options (disable_sampling / hard / gumbel / temperature, [OSetOpt]), position of the random stream, cost specification);
    the only other component, [polluted] (shape keys that a cost call leaves in a plain layer's
    __dict__), influences no observation (C18_step_respects_visible).
    All statements quantify over every configuration, every state and every (unbounded) history. *)
@@ -73,26 +73,33 @@ Proof. exact upstream_summary_refuted. Qed.
 
 (* restoring only "the mode" (self.train(self.training)) after export() un-freezes a frozen BatchNorm *)
 Theorem C18_mode_only_restore_refuted : exists c s,
-  let v := mkVer RMode true true in
+  let v := mkVer RMode true true true in
   tr_sub s = false /\ tr_sub (fst (step v c s OExport)) = true /\
   bv (run v c s [OExport; OForward]) <> bv (run v c s [OForward]).
 Proof. exact mode_only_restore_refuted. Qed.
 
+(* an export() that ends with update_softmax_options(disable_sampling=False) instead of the previous value *)
+Theorem C18_export_resetting_options_refuted : exists c s,
+  let v := mkVer RAll true true false in
+  o_disabled (opt s) = true /\ o_disabled (opt (fst (step v c s OExport))) = false /\
+  snd (step v c (run v c s [OExport; OForward]) OCost) <> snd (step v c (run v c s [OForward]) OCost).
+Proof. exact export_resetting_options_refuted. Qed.
+
 Theorem C18_each_fix_needed :
-  (exists c s, ~ veq (fst (step (mkVer RNo true true) c s OExport)) s) /\
-  (exists c s, ~ veq (fst (step (mkVer RMode true true) c s OExport)) s) /\
-  (exists c s, ~ veq (fst (step (mkVer RAll false true) c s OExport)) s) /\
-  (exists c s, ~ veq (fst (step (mkVer RAll true false) c s OSummary)) s).
+  (exists c s, ~ veq (fst (step (mkVer RNo true true true) c s OExport)) s) /\
+  (exists c s, ~ veq (fst (step (mkVer RMode true true true) c s OExport)) s) /\
+  (exists c s, ~ veq (fst (step (mkVer RAll false true true) c s OExport)) s) /\
+  (exists c s, ~ veq (fst (step (mkVer RAll true false true) c s OSummary)) s).
 Proof. exact each_fix_needed. Qed.
 
 (* a concrete non-trivial history: SuperNet with Gumbel sampling in training, two forwards, one search
    step, two specification switches, BatchNorm/Dropout frozen on the way, eight observer calls (both orders of
    get_cost); the upstream model fails on the same history *)
 Example C18_example :
-  trace_mut fixed cfg_sn_g (init true false SingleA) ex_ops = trace fixed cfg_sn_g (init true false SingleA) (erase ex_ops)
+  trace_mut fixed cfg_sn_g (init cfg_sn_g true false SingleA) ex_ops = trace fixed cfg_sn_g (init cfg_sn_g true false SingleA) (erase ex_ops)
   /\ List.length (erase ex_ops) = 6%nat
-  /\ rng (run fixed cfg_sn_g (init true false SingleA) ex_ops) = 35
-  /\ trace_mut upstream cfg_sn_g (init true false SingleA) ex_ops <> trace upstream cfg_sn_g (init true false SingleA) (erase ex_ops).
+  /\ rng (run fixed cfg_sn_g (init cfg_sn_g true false SingleA) ex_ops) = 35
+  /\ trace_mut upstream cfg_sn_g (init cfg_sn_g true false SingleA) ex_ops <> trace upstream cfg_sn_g (init cfg_sn_g true false SingleA) (erase ex_ops).
 Proof. exact example_history. Qed.
 
 Print Assumptions C18_step_respects_visible.
@@ -110,4 +117,5 @@ Print Assumptions C18_upstream_export_cost_refuted.
 Print Assumptions C18_upstream_export_rng_refuted.
 Print Assumptions C18_upstream_summary_refuted.
 Print Assumptions C18_mode_only_restore_refuted.
+Print Assumptions C18_export_resetting_options_refuted.
 Print Assumptions C18_each_fix_needed.
